@@ -145,6 +145,18 @@ PROBES = [
 ]
 
 
+# queries built the way func_adl's ObjectStream builds them: several queries derived from ONE base stream share that base's AST *object*
+# (jets = ds.MetaData(..).Select(..); jets.Select(a).value(); jets.Select(b).value()).  (back end, base text, tails with BASE standing for the shared object)
+SHARED = [
+    ("atlas", q("Select(DS, lambda e: e.Jets('AntiKt4'))", [JET_INT]), ["Select(BASE, lambda js: js.Count())", "Select(BASE, lambda js: js.Select(lambda j: j.pt() / 2))", "BASE"]),
+    ("atlas", q("Select(DS, lambda e: e.Jets('AntiKt4'))", [FUNC, SCRIPT, BLOCK]), ["Select(BASE, lambda js: js.Select(lambda j: MyFunc(j.pt())))", "Select(BASE, lambda js: js.Count())"]),
+    ("atlas", q("Select(DS, lambda e: e.MyJets('b'))", [COLL]), ["Select(BASE, lambda js: js.Count())", "Select(BASE, lambda js: js.Select(lambda j: j.pt()))"]),
+    ("atlas", q(A_ENUM, [ENUM]), ["BASE", "Select(BASE, lambda bs: bs.Count())"]),
+    ("cms_aod", q("Select(DS, lambda e: e.Muons('muons'))", [MU_INT]), ["Select(BASE, lambda ms: ms.Count())", "Select(BASE, lambda ms: ms.Select(lambda m: m.pt() / 2))"]),
+    ("cms_miniaod", q("Select(DS, lambda e: e.Muons('slimmedMuons'))"), ["Select(BASE, lambda ms: ms.Count())", "Select(BASE, lambda ms: ms.Select(lambda m: m.pt()))", "BASE"]),
+    ("cms_miniaod", q(C_MYMU, [MINI_COLL]), ["BASE", "Select(BASE, lambda ps: ps.Count())"]),
+]
+
 
 def _gen_refused():
     from vf.props import C09
@@ -187,7 +199,22 @@ def _recv(fd):
     return json.loads(buf.decode())
 
 
-def _do_translate(state, backend, text, executor, bad_outdir, xmd, apply_only=False):
+def _shared_ast(state, base_text, tail):
+    """the query `tail` with BASE replaced by the ONE parsed object kept for base_text in this process"""
+    import ast as _ast
+
+    from vf.xlate import parse_query
+
+    base = state.setdefault(("base", base_text), parse_query(base_text))
+
+    class Sub(_ast.NodeTransformer):
+        def visit_Name(self, node):
+            return base if node.id == "BASE" else node
+
+    return Sub().visit(parse_query(tail))
+
+
+def _do_translate(state, backend, text, executor, bad_outdir, xmd, apply_only=False, shared=None):
     import dataclasses
     import logging
     from pathlib import Path
@@ -219,7 +246,7 @@ def _do_translate(state, backend, text, executor, bad_outdir, xmd, apply_only=Fa
     h = H(level=logging.WARNING)
     logging.getLogger().addHandler(h)
     try:
-        a = exe.apply_ast_transformations(parse_query(text))
+        a = exe.apply_ast_transformations(parse_query(text) if shared is None else _shared_ast(state, shared[0], shared[1]))
         if apply_only:
             # the caller only wanted the transformed query (to hash it, say) and never writes a package for it
             return {"ok": True, "files": {}, "tree": None, "file": None, "warnings": [], "xmd": [], "registered": registered, "apply_only": True}
@@ -242,7 +269,7 @@ def child_loop(rfd, wfd):
         if msg is None or msg.get("cmd") == "quit":
             os._exit(0)
         try:
-            res = _do_translate(state, msg["backend"], msg["text"], msg.get("executor", "new"), msg.get("bad_outdir", False), msg.get("xmd", False), msg.get("apply_only", False))
+            res = _do_translate(state, msg["backend"], msg["text"], msg.get("executor", "new"), msg.get("bad_outdir", False), msg.get("xmd", False), msg.get("apply_only", False), msg.get("shared"))
         except BaseException:
             res = {"ok": False, "exc": "HARNESS", "msg": traceback.format_exc()[-400:]}
         _send(wfd, res)
@@ -371,6 +398,34 @@ class History(RuleBasedStateMachine):
             raise RuntimeError("harness failure in child: " + r["msg"])
         self.steps.append({"label": "generated-valid", "backend": backend, "text": text, "executor": executor, "bad_outdir": False, "xmd": False, "declares": True, "failed": not r["ok"]})
 
+    @rule(sh=st.sampled_from(SHARED), ti=st.integers(0, 2), executor=st.sampled_from(["new", "same"]))
+    def translate_shared(self, sh, ti, executor):
+        """a query that shares its base stream's AST object with every other query derived from that base in this process; each such translation is
+        a probe as well: it is compared with the same query text in a pristine process"""
+        backend, base_text, tails = sh
+        tail = tails[ti % len(tails)]
+        text = tail.replace("BASE", base_text)
+        got = self.child.call({"backend": backend, "text": text, "executor": executor, "shared": [base_text, tail]})
+        if got.get("exc") == "HARNESS":
+            raise RuntimeError("harness failure in child: " + got["msg"])
+        base = baseline(backend, text, got.get("registered", False))
+        earlier = sum(1 for s in self.steps if s.get("shared_base") == base_text)
+        stats: Stats = _current["stats"]
+        stats.case(jdump([self.steps, "shared", text, executor]), earlier >= 1, [f"history_len={len(self.steps)}", "shared-base-object", f"earlier_uses_of_base={min(earlier, 3)}", "backend=" + backend],
+                   {"history": [s["label"] + "@" + s["executor"] for s in self.steps], "probe": "shared base object: " + tail, "probe_backend": backend})
+        d = compare(base, got)
+        self.steps.append({"label": "shared-base:" + tail[:40], "backend": backend, "text": text, "executor": executor, "bad_outdir": False, "xmd": False, "declares": True,
+                           "failed": not got["ok"], "shared": [base_text, tail], "shared_base": base_text})
+        if d:
+            hist = self.steps[:-1]
+            key = "shared-ast-" + ("first-use" if earlier == 0 else "reused")
+            sup = _current.get("suppressed", {})
+            if key in sup:
+                sup[key] += 1
+                return
+            raise Violation(key, f"query {tail!r} over a base stream object used {earlier} time(s) before in this process, on {backend}: {d}",
+                            {"history": hist, "probe": {"backend": backend, "text": text, "executor": executor, "xmd": False, "shared": [base_text, tail]}})
+
     @precondition(lambda self: len(self.steps) >= 1)
     @rule(probe=st.sampled_from(PROBES), executor=st.sampled_from(["new", "same"]))
     def probe(self, probe, executor):
@@ -462,9 +517,9 @@ def replay(case):
     try:
         for s in case["history"]:
             c.call({"backend": s["backend"], "text": s["text"], "executor": s["executor"], "bad_outdir": s.get("bad_outdir", False), "xmd": s.get("xmd", False),
-                    "apply_only": s.get("apply_only", False)})
+                    "apply_only": s.get("apply_only", False), "shared": s.get("shared")})
         p = case["probe"]
-        got = c.call({"backend": p["backend"], "text": p["text"], "executor": p["executor"], "xmd": p.get("xmd", False)})
+        got = c.call({"backend": p["backend"], "text": p["text"], "executor": p["executor"], "xmd": p.get("xmd", False), "shared": p.get("shared")})
     finally:
         c.close()
     base = baseline(p["backend"], p["text"], got.get("registered", p.get("xmd", False)))
